@@ -257,6 +257,40 @@ func allProbes() []probe {
 				}
 			}
 		}},
+		{"C01", "coll/collator-equal-spelling", func(fail func(string, string, string)) {
+			// the composed and the decomposed spelling of one text have the same sort key under
+			// every collator: the second insert must not destroy the first (it used to replace
+			// the leaf by a node without children: both keys gone, Size one too high, later panics)
+			nfc, nfd := "r\u00e9sume", "re\u0301sume"
+			for name, c := range map[string]*collate.Collator{"und": collate.New(language.Und), "und+IgnoreCase": collate.New(language.Und, collate.IgnoreCase)} {
+				second := nfd
+				if name == "und+IgnoreCase" {
+					second = "R\u00c9SUME"
+				}
+				t := art.NewCollationSortedTree[string, int](art.WithCollator[string, int](c))
+				t.Insert(nfc, 1)
+				t.Insert("d9", 5)
+				t.Insert(second, 2)
+				t.Insert("B9", 3)
+				n := 0
+				for range t.All() {
+					n++
+				}
+				if n != 3 || t.Size() != 3 {
+					fail(fmt.Sprintf("%s: Insert(%q); Insert(\"d9\"); Insert(%q); Insert(\"B9\"): stored pairs / Size()", name, nfc, second), "3 / 3", fmt.Sprintf("%d / %d", n, t.Size()))
+					return
+				}
+				k, v, ok := t.Maximum()
+				if !ok || v != 2 || (k != nfc && k != second) {
+					fail(fmt.Sprintf("%s: Maximum() after inserting two spellings the collator cannot tell apart", name), "one of the spellings with the latest value 2", fmt.Sprintf("(%q,%d,%v)", k, v, ok))
+					return
+				}
+				if v, ok := t.Search("d9"); !ok || v != 5 {
+					fail(name+": Search(\"d9\")", "(5,true)", fmt.Sprintf("(%d,%v)", v, ok))
+					return
+				}
+			}
+		}},
 		// ---- open finding ----
 		{"C01", "map/nul-extends-stored-key", func(fail func(string, string, string)) {
 			t := art.NewAlphaSortedTree[string, int]()
